@@ -28,6 +28,7 @@ fixed = [
  ("C13", "3034ab1", "make_kl / gkl_sfi raised IndexError or ValueError for radial samplings such as nr = 19, 31, 33, 38, 49 (rebin returned one sample too many)"),
  ("C13", "ed33e53", "gkl_basis raised IndexError for nr = 31, 42, 60 (NaN kernel: root of a squared distance rounded to -1e-16)"),
  ("C07", "7aa4c85", "ft_sh_phase_screen with an integer seed: sub-harmonic draws repeated the first numbers of the high-frequency stream; structure-function values decreased by up to 4 % (N=8, L0=0.26 N delta: -0.00384 +- 0.00013 over 40000 seeds) instead of only gaining low-frequency power"),
+ ("C05", "7ebd098", "infinite von Karman screen unstable for finely sampled screens: PhaseScreenVonKarman(12, 0.01, 0.2, 150) constructs but its row recursion has spectral radius 1.11 (single-precision phase_covariance); screens diverge within ~100 rows"),
  ("C08", "23b1b66", "structure_function_vk(0, r0, L0) and stf_vonKarman(0, L0) returned NaN instead of 0"),
 ]
 open_ = [
